@@ -32,8 +32,8 @@ MSG_TEXT = {
     "bracketnoref": "[s{u}] x", "openquote": 's{u} \\" unbalanced',
 }
 
-GAP = {"tight": "", "space": " ", "newline": "\n        ", "crlf": "\r\n        ", "blockcomment": " /* c */ ",
-       "linecomment": " // c\n        ", "tabs": "\t"}
+GAP = {"tight": "", "space": " ", "newline": "\n        ", "crlf": "\r\n        ", "blockcomment": " /* c, d; e */ ",
+       "linecomment": " // c, d; e\n        ", "tabs": "\t"}
 
 CONTEXT = {
     "linestart": ("", ";"), "indent": ("    ", ";"), "brace": ("    { ", "; }"), "arrow": ("    match x { _ => ", ", }"),
@@ -112,14 +112,14 @@ def render_case(case, uid):
     else:
         tgt = TARGET_TEXT[s["target"]]
         if tgt is not None:
-            out.append(g + tgt + ",")
+            out.append(g + tgt + g + ",")
             gap_start = cur()
         out.append(g)
         pos["kv_gap"] = (gap_start, g)
         kvs = s["kvs"]
         for i, shape in enumerate(kvs):
             out.append(KV_TEXT[shape].format(k="k%d" % (i + 1)))
-            out.append(("," if i + 1 < len(kvs) else ";") + g)
+            out.append(g + ("," if i + 1 < len(kvs) else ";") + g)
         out.append('"')
         pos["msg"] = cur()
         out.append(msg + '"' + args_after + g + ")")
